@@ -429,6 +429,7 @@ class Canon:
         self.ex = W.Extractor(m, cls, fn, side)
         self.fn = self.ex.fn  # helpers that receive the stream are inlined: analyse what actually runs
         self.where = f'{cls}.{fn.name}'
+        self.fixed_arity = '__len__' in W.methods(m.cls(cls))
         self.prog = self.ex.program()
         self.tt = _type_tables(m)
         self.value = self.ex.value
@@ -520,6 +521,8 @@ class Canon:
             for it in xs:
                 if it[0] in ('lenprefix', 'bytes', 'missing'):
                     res.append((it[0], ren.get(it[1], it[1])))
+                elif it[0] == 'packed':
+                    res.append(('packed', ren.get(it[1], it[1])) + tuple(it[2:]))
                 elif it[0] == 'loop':
                     res.append(('loop', ren.get(it[1], it[1]), rn(it[2])))
                 elif it[0] == 'present':
@@ -559,10 +562,21 @@ class Canon:
                         out.append(('prim', kind))
             elif k == 'bytes':
                 out.append(self.bytes_item(it[1]))
+            elif k == 'packed':
+                info = it[1]
+                out.append(('packed', self.count_tag(info['count']), self.code_of(info['code']), info['order'], info['op']))
+                self.facts.setdefault('packed', []).append(info)
             elif k == 'missing_w':
                 info = it[1]
                 msg, sources = W.check_missing_region(info)
                 self.facts.setdefault('missing_w', []).append((info, msg, sources))
+                sources = set(sources)
+                if 'mapping' in sources:   # a view of a Mapping value (value.values(), ...) has one entry per key of the value
+                    sources = (sources - {'mapping'}) | {'value'}
+                if self.fixed_arity:
+                    # the type object is itself a fixed collection of component types (it has __len__): a well-typed value has exactly
+                    # that many components, so a header that ranges over the value ranges over the fields
+                    sources = {('fields' if x == 'value' else x) for x in sources}
                 if sources == {'value'} or (msg is not None and 'value' in sources):
                     tag = f'len:{self.value}'
                 elif sources == {'fields'} or msg is not None:
@@ -657,6 +671,79 @@ class Canon:
             self.fail(info['node'], f'cannot classify the byte count `{pf.nsrc(arg)}`')
         return ('raise',)
 
+    def code_of(self, e: ast.AST) -> tuple:
+        """struct code handed to a bulk read: ('const', c) | ('classattr', <receiver text>, <attribute>) (a class-level constant of the element type)"""
+        r = _resolve(self.fn, e)
+        c = pf.const_str(r)
+        if c is not None:
+            return ('const', c)
+        if isinstance(r, ast.Attribute) and pf.dotted(r.value) is not None and pf.dotted(r.value).split('.')[0] == self.ex.selfname:
+            return ('classattr', pf.nsrc(r.value), r.attr)
+        self.fail(e, f'cannot resolve the struct code `{pf.nsrc(e)[:60]}` of a bulk read')
+        return ('const', '')
+
+    def fast_path(self, test: ast.AST, then: Sequence[tuple], orelse: Sequence[tuple]) -> Optional[List[tuple]]:
+        """`if <element type has a struct code> and <no missing bit is set>: <bulk read>` in front of the general decode loop.  The bulk
+        branch is compared, per admitted element class C, with the general branch specialised to C and to "everything present": equal
+        for every C -> the condition does not select a layout (the general branch is the wire program); different -> recorded as a
+        violation of reader/writer agreement (the writer has no such branch)."""
+        if self.side != 'r' or not any(x[0] == 'packed' for x in W.flatten_prims(then)):
+            return None
+        atoms = list(test.values) if isinstance(test, ast.BoolOp) and isinstance(test.op, ast.And) else [test]
+        mb_taint = self.tainted_by({i_['bind'] for i_ in self.facts.get('missing_r', []) if i_.get('bind')}) if self.facts.get('missing_r') else set()
+        recv: Optional[str] = None
+        admitted: Optional[frozenset] = None
+        all_present = False
+        unknown: List[str] = []
+        for a in atoms:
+            x = a
+            notnone = None
+            if isinstance(x, ast.Compare) and len(x.ops) == 1 and isinstance(x.ops[0], (ast.IsNot, ast.NotEq)) and isinstance(x.comparators[0], ast.Constant) and x.comparators[0].value is None:
+                notnone = x.left
+            elif isinstance(x, ast.Name):
+                notnone = x
+            if notnone is not None:
+                r = _resolve(self.fn, notnone)
+                if isinstance(r, ast.Attribute) and pf.dotted(r.value) is not None and pf.dotted(r.value).split('.')[0] == self.ex.selfname and pf.dotted(r.value) != self.ex.selfname:
+                    tab = _class_attr_table(self.m, r.attr)
+                    adm = frozenset(c_ for c_, v in tab.items() if v is not None and not (isinstance(x, ast.Name) and not v))
+                    if recv is not None and recv != pf.nsrc(r.value):
+                        self.fail(test, 'bulk-path guard consults two different type components')
+                    recv = pf.nsrc(r.value)
+                    admitted = adm if admitted is None else admitted & adm
+                    continue
+            if isinstance(x, ast.UnaryOp) and isinstance(x.op, ast.Not) and isinstance(x.operand, ast.Call) and pf.dotted(x.operand.func) == 'any' and len(x.operand.args) == 1 \
+                    and isinstance(x.operand.args[0], ast.Name) and x.operand.args[0].id in mb_taint and not x.operand.keywords:
+                all_present = True   # no byte of the missing bytes is non-zero: every slot is present
+                continue
+            g = self.tt.guard(x)
+            if g is not None and g.subject_text.split('.')[0] == self.ex.selfname:
+                if recv is not None and recv != g.subject_text:
+                    self.fail(test, 'bulk-path guard consults two different type components')
+                recv = g.subject_text
+                admitted = g.admitted if admitted is None else admitted & g.admitted
+                continue
+            unknown.append(pf.nsrc(x))
+        t_items, e_items = self.items(then), self.items(orelse)
+        if recv is None or admitted is None:
+            self.fail(test, f'bulk read under `{pf.nsrc(test)[:80]}`: the guard does not restrict the element type to classes with a known struct code')
+        problems: List[str] = []
+        for cn in sorted(admitted):
+            try:
+                tc = _specialise(self, t_items, recv, cn, False)
+                ec = _specialise(self, e_items, recv, cn, all_present)
+            except AnalysisError as ex:
+                self.fail(test, f'bulk read under `{pf.nsrc(test)[:60]}`, element class {cn}: {ex}')
+            if isinstance(tc, str):
+                problems.append(f'element class {cn}: {tc}')
+            elif tc != ec:
+                why = '' if all_present else ' (the guard does not establish that no missing bit is set, so the general path still skips missing slots)'
+                problems.append(f'element class {cn}: the bulk branch reads {show_canon(tc)} where the general decode loop - and the writer - have {show_canon(ec)}{why}')
+        if problems and unknown:
+            self.fail(test, f'bulk read under `{pf.nsrc(test)[:80]}` differs from the general path, but the guard has conjunct(s) that are not understood: {unknown}')
+        self.facts.setdefault('fast_paths', []).append(dict(test=test, classes=sorted(admitted), problems=problems, all_present=all_present))
+        return e_items
+
     def tainted_by(self, names: set) -> set:
         """names whose value is computed from `names` (transitively, flow-insensitive)"""
         taint = set(names)
@@ -746,6 +833,9 @@ class Canon:
             if any(isinstance(x, ast.Name) and x.id in taint for x in ast.walk(test)) and bool(then) != bool(orelse):
                 self.facts.setdefault('presence_r', []).append(test)
                 return [('present', self.items(then or orelse))]
+        fp = self.fast_path(test, then, orelse)
+        if fp is not None:
+            return fp
         txt = pf.nsrc(test)
         g = self.tt.guard(test)
         if g is not None and g.subject_text in ('self.element_type', 'self._element_type'):
@@ -817,7 +907,130 @@ def show_canon(xs: Sequence[tuple]) -> str:
             parts.append(f'REC({it[1]})')
         elif k == 'raise':
             parts.append('RAISE')
+        elif k == 'packed':
+            parts.append(f'PACKED[{it[1]} x {it[2][1] if it[2][0] == "const" else it[2][1] + "." + it[2][2]}]')
     return ' · '.join(parts)
+
+
+_CATTR_CACHE: Dict[tuple, Dict[str, Any]] = {}
+_RCANON_CACHE: Dict[tuple, List[tuple]] = {}
+STD_PRIM = {v: k for k, v in PRIM_SPEC.items()}
+STD_PRIM[(1, 'bool')] = 'bool'
+PRIM_KIND = {'int32': 'i32', 'int64': 'i64', 'float32': 'f32', 'float64': 'f64', 'byte': 'byte', 'bool': 'bool'}
+
+
+def _class_attr_table(m: pf.Module, attr: str) -> Dict[str, Any]:
+    """class name -> value of the class-level constant `attr` as an instance of that class sees it (MRO lookup inside the module); classes whose
+    value cannot be established are absent.  Declines when the attribute is ever stored on an instance or a class from inside a function."""
+    key = (id(m), attr)
+    if key in _CATTR_CACHE:
+        return _CATTR_CACHE[key]
+    for n in ast.walk(m.tree):
+        if isinstance(n, ast.Attribute) and n.attr == attr and isinstance(n.ctx, (ast.Store, ast.Del)):
+            raise AnalysisError(f'{m.rel}: `.{attr}` is assigned outside a class body (line {n.lineno}): its per-class value is not a constant table')
+        if isinstance(n, ast.Call) and pf.dotted(n.func) == 'setattr':
+            raise AnalysisError(f'{m.rel}: setattr(...) (line {n.lineno}): the per-class value of `.{attr}` is not a constant table')
+    top = {c.name: c for c in m.tree.body if isinstance(c, ast.ClassDef)}
+    classes = W.hail_type_classes(m)
+
+    def own(c: ast.ClassDef) -> Tuple[bool, Any]:
+        vals = []
+        for st in c.body:
+            if isinstance(st, ast.Assign) and any(isinstance(t, ast.Name) and t.id == attr for t in st.targets):
+                vals.append(st.value)
+            elif isinstance(st, ast.AnnAssign) and isinstance(st.target, ast.Name) and st.target.id == attr and st.value is not None:
+                vals.append(st.value)
+            elif isinstance(st, (ast.FunctionDef, ast.AsyncFunctionDef)) and st.name == attr:
+                raise AnalysisError(f'{m.rel}::{c.name}.{attr} is a method / property, not a class-level constant')
+        if not vals:
+            return False, None
+        v = vals[-1]
+        if not isinstance(v, ast.Constant):
+            raise AnalysisError(f'{m.rel}::{c.name}.{attr} = `{pf.nsrc(v)[:40]}` is not a constant')
+        return True, v.value
+
+    def lookup(cn: str, seen: tuple = ()) -> Tuple[bool, Any]:
+        c = top.get(cn)
+        if c is None or cn in seen:
+            return False, None
+        f_, v = own(c)
+        if f_:
+            return True, v
+        for b in c.bases:
+            d = pf.dotted(b)
+            if d in top:
+                f2, v2 = lookup(d, seen + (cn,))
+                if f2:
+                    return True, v2
+        return False, None
+
+    out: Dict[str, Any] = {}
+    for cn in classes:
+        f_, v = lookup(cn)
+        if not f_:
+            raise AnalysisError(f'{m.rel}: class {cn} has no class-level `{attr}` (AttributeError on the bulk-path guard)')
+        out[cn] = v
+    _CATTR_CACHE[key] = out
+    return out
+
+
+def _reader_canon(cn_ctx: 'Canon', cn: str) -> List[tuple]:
+    key = (id(cn_ctx.m), cn)
+    if key not in _RCANON_CACHE:
+        ms = W.methods(cn_ctx.m.cls(cn))
+        if FROM not in ms:
+            raise AnalysisError(f'class {cn} has no {FROM}')
+        _RCANON_CACHE[key] = Canon(cn_ctx.ctx, cn_ctx.m, cn, ms[FROM], 'r').canon()
+    return _RCANON_CACHE[key]
+
+
+def _specialise(c: 'Canon', xs: Sequence[tuple], recv: str, cn: str, all_present: bool) -> Any:
+    """Canonical items `xs` for element class `cn`: delegated decodes on `recv` replaced by the class's own reader program (primitives only), bulk
+    reads by `count` repetitions of the primitive their struct code denotes, presence tests dropped when every slot is known to be present.
+    Returns a message (str) when the bulk read itself is ill-formed for this class."""
+    out: List[tuple] = []
+    for it in xs:
+        k = it[0]
+        if k == 'rec' and it[1] == recv:
+            prog = _reader_canon(c, cn)
+            if not all(p[0] == 'prim' for p in prog):
+                raise AnalysisError(f'the decoder of {cn} is not a sequence of primitives ({show_canon(prog)})')
+            out += prog
+        elif k == 'packed':
+            _, tag, code, order, op = it
+            ch = code[1] if code[0] == 'const' else _class_attr_table(c.m, code[2]).get(cn)
+            if not isinstance(ch, str) or len(ch) != 1 or ch not in STRUCT_STD:
+                return f'{op} is handed the struct code {ch!r}, which is not one of the fixed-width format characters of the struct table'
+            if order not in '=<' and STRUCT_STD[ch][0] > 1:
+                return f'{op} unpacks with byte order / size mode {order!r} (the stream is little-endian with standard sizes)'
+            prim = STD_PRIM.get(STRUCT_STD[ch])
+            if ch in ('b', 'B'):
+                # one byte read as a small integer: 0 / 1 compare equal to False / True, so neither "equal" nor "different" is established here
+                raise AnalysisError(f'{op} unpacks struct code {ch!r} (one byte as an integer): equality of the decoded values with the element decoder\'s is not decided')
+            if prim is None:
+                return f'{op} unpacks struct code {ch!r} ({STRUCT_STD[ch][0]}-byte {STRUCT_STD[ch][1]}), which is not a primitive of the wire format'
+            out.append(('loop', tag, [('prim', PRIM_KIND[prim])]))
+        elif k == 'present':
+            inner = _specialise(c, it[1], recv, cn, all_present)
+            if isinstance(inner, str):
+                return inner
+            if all_present:
+                out += inner
+            else:
+                out.append(('present', inner))
+        elif k == 'loop':
+            inner = _specialise(c, it[2], recv, cn, all_present)
+            if isinstance(inner, str):
+                return inner
+            out.append(('loop', it[1], inner))
+        elif k == 'cond':
+            a, b = _specialise(c, it[2], recv, cn, all_present), _specialise(c, it[3], recv, cn, all_present)
+            if isinstance(a, str) or isinstance(b, str):
+                return a if isinstance(a, str) else b
+            out.append(('cond', it[1], a, b))
+        else:
+            out.append(it)
+    return out
 
 
 # --------------------------------------------------------------------------------------
@@ -869,6 +1082,15 @@ def _python_side(ctx: Ctx, m: pf.Module, classes: Dict[str, ast.ClassDef]) -> Di
             ctx.bad('R2', cons, f'wire programs differ - {_first_diff(pw, pr)}. writer: {show_canon(pw)} | reader: {show_canon(pr)}', m.path, ms[FROM].lineno)
         canon[cname] = (pw, cw, cr)
         cw.canon_cache, cr.canon_cache = pw, pr
+        # bulk (fast) paths of the decoder: byte-for-byte the general path, for every element class they admit
+        for fp in cr.facts.get('fast_paths', []):
+            fcons = f'{F}::{cname}.{FROM}::bulk path'
+            if fp['problems']:
+                ctx.bad('R2', fcons, f'the bulk branch under `{pf.nsrc(fp["test"])[:100]}` does not read what the general decode loop (and the writer, which has no such branch) '
+                        f'lay out - ' + '; '.join(fp['problems']), m.path, fp['test'].lineno)
+            else:
+                ctx.ok('R2', fcons, {'guard': pf.nsrc(fp['test'])[:100], 'admitted_element_classes': fp['classes'],
+                                     'decided': 'bulk branch == general branch specialised to each admitted class with every slot present' if fp['classes'] else 'no class admitted: branch dead'})
         # presence test guards the component that is encoded, in the order of the missing bits
         for subj, present, test in cw.facts.get('present_w', []):
             recs = [it for it in W.flatten_prims(present) if it[0] == 'rec']
@@ -1666,6 +1888,401 @@ def _r9(ctx: Ctx, m: pf.Module, classes: Dict[str, ast.ClassDef]):
     ctx.need(not undecided, undecided[0] if undecided else '')
 
 
+# --------------------------------------------------------------------------------------
+# R10 freeze duty of container decoders
+# --------------------------------------------------------------------------------------
+#
+# tset / tdict decode their elements / keys with _should_freeze=True (R2 checks that) because those values are hashed.  A decoder that
+# builds a mutable container (list, set, dict) must therefore hand back a frozen one on EVERY path on which the flag may be true - an
+# early return (fast path, empty-input shortcut) placed before the freeze decision skips it.  Decided by an abstract execution of the
+# decoder: the state is (what is known about the flag: T / F / ?, kind of every local: H frozen-by-construction | U mutable container
+# | ? unknown); tests on the flag split the state; helpers (same class, module level, stream class) are summarised the same way.
+
+FROZEN_CTORS = {'frozenlist', 'frozenset', 'frozendict', 'tuple', 'Struct', 'hl.Struct', 'hl.utils.Struct', 'str', 'int', 'float', 'bool', 'bytes', 'complex'}
+MUTABLE_CTORS = {'list': 'list', 'set': 'set', 'dict': 'dict', 'bytearray': 'bytearray', 'sorted': 'list', 'collections.OrderedDict': 'dict', 'OrderedDict': 'dict',
+                 'collections.defaultdict': 'dict', 'defaultdict': 'dict', 'collections.deque': 'deque', 'deque': 'deque'}
+MUTABLE_METHODS = {'tolist': 'list', 'split': 'list', 'rsplit': 'list', 'splitlines': 'list'}
+HASHABLE_METHODS = {'decode', 'tobytes', 'unpack', 'unpack_from', 'hex', 'join', 'format', 'strip', 'lower', 'upper', 'item'}
+H_, Q_ = ('H', ''), ('?', '')
+
+
+class _FreezeWalk:
+    def __init__(self, m: pf.Module, cname: Optional[str], fn: pf.FuncDef, flag: Optional[str], stream: Optional[str], depth: int = 0):
+        self.m, self.cname, self.fn, self.flag, self.stream, self.depth = m, cname, fn, flag, stream, depth
+        self.returns: List[Tuple[str, frozenset, ast.Return]] = []
+        self.decisions: List[ast.AST] = []
+        self.loop_exits: List[List[tuple]] = []
+        self.where = f'{m.rel}::{(cname + ".") if cname else ""}{fn.name}'
+
+    def fail(self, node: Optional[ast.AST], msg: str):
+        raise AnalysisError(f'{self.where} (line {getattr(node, "lineno", self.fn.lineno)}): freeze analysis: {msg}')
+
+    # ---- tests on the flag ---------------------------------------------------------
+    def flag_atom(self, t: ast.AST) -> Optional[bool]:
+        """polarity when `t` is true exactly when the flag is true (True) / false (False); None when t is not such an atom"""
+        if self.flag is None:
+            return None
+        if isinstance(t, ast.Name) and t.id == self.flag:
+            return True
+        if isinstance(t, ast.UnaryOp) and isinstance(t.op, ast.Not):
+            a = self.flag_atom(t.operand)
+            return None if a is None else (not a)
+        if isinstance(t, ast.Call) and pf.dotted(t.func) == 'bool' and len(t.args) == 1 and not t.keywords:
+            return self.flag_atom(t.args[0])
+        if isinstance(t, ast.Compare) and len(t.ops) == 1 and isinstance(t.left, ast.Name) and t.left.id == self.flag and isinstance(t.comparators[0], ast.Constant) \
+                and isinstance(t.comparators[0].value, bool):
+            c = t.comparators[0].value
+            if isinstance(t.ops[0], (ast.Is, ast.Eq)):
+                return c
+            if isinstance(t.ops[0], (ast.IsNot, ast.NotEq)):
+                return not c
+        return None
+
+    def classify(self, t: ast.AST) -> Tuple[str, Optional[bool]]:
+        """('none', None): flag not consulted | ('exact', pol) | ('and', pol): true => flag == pol | ('or', pol): false => flag != pol"""
+        if self.flag is None or not W.mentions(t, self.flag):
+            return 'none', None
+        a = self.flag_atom(t)
+        if a is not None:
+            return 'exact', a
+        if isinstance(t, ast.BoolOp):
+            pols = [self.flag_atom(v) for v in t.values if W.mentions(v, self.flag)]
+            if len(pols) == 1 and pols[0] is not None:
+                return ('and' if isinstance(t.op, ast.And) else 'or'), (pols[0] if isinstance(t.op, ast.And) else pols[0])
+        self.fail(t, f'the freeze flag is consulted in an unrecognised test `{pf.nsrc(t)[:80]}`')
+        return 'none', None
+
+    @staticmethod
+    def _fz(pol: bool) -> str:
+        return 'T' if pol else 'F'
+
+    def split(self, t: ast.AST, fz: str) -> Tuple[Optional[str], Optional[str]]:
+        """(flag knowledge in the then-branch, in the else-branch); None = branch unreachable in this state"""
+        kind, pol = self.classify(t)
+        if kind == 'none':
+            return fz, fz
+        self.decisions.append(t)
+        if kind == 'exact':
+            th, el = self._fz(pol), self._fz(not pol)
+            return (th if fz in ('?', th) else None), (el if fz in ('?', el) else None)
+        if kind == 'and':
+            th = self._fz(pol)
+            return (th if fz in ('?', th) else None), fz
+        el = self._fz(not pol)      # 'or': the test is false only when the flag differs from pol
+        return fz, (el if fz in ('?', el) else None)
+
+    # ---- kinds -----------------------------------------------------------------------
+    def kind(self, e: Optional[ast.AST], env: Dict[str, frozenset], fz: str) -> frozenset:
+        if e is None or isinstance(e, (ast.Constant, ast.JoinedStr, ast.Tuple, ast.Compare)):
+            return frozenset([H_])
+        if isinstance(e, ast.Name):
+            return env.get(e.id, frozenset([Q_]))
+        if isinstance(e, (ast.List, ast.ListComp)):
+            return frozenset([('U', f'list `{pf.nsrc(e)[:60]}`')])
+        if isinstance(e, (ast.Set, ast.SetComp)):
+            return frozenset([('U', f'set `{pf.nsrc(e)[:60]}`')])
+        if isinstance(e, (ast.Dict, ast.DictComp)):
+            return frozenset([('U', f'dict `{pf.nsrc(e)[:60]}`')])
+        if isinstance(e, ast.NamedExpr):
+            return self.kind(e.value, env, fz)
+        if isinstance(e, ast.IfExp):
+            th, el = self.split(e.test, fz)
+            out: frozenset = frozenset()
+            if th is not None:
+                out |= self.kind(e.body, env, th)
+            if el is not None:
+                out |= self.kind(e.orelse, env, el)
+            return out
+        if isinstance(e, ast.BoolOp):
+            out = frozenset()
+            for v in e.values:
+                out |= self.kind(v, env, fz)
+            return out
+        if isinstance(e, ast.BinOp):
+            ks = self.kind(e.left, env, fz) | self.kind(e.right, env, fz)
+            us = frozenset(k for k in ks if k[0] == 'U')
+            return us or frozenset([Q_])
+        if isinstance(e, ast.Call):
+            d = pf.dotted(e.func)
+            if d in FROZEN_CTORS or W.value_class_of_call(e):
+                return frozenset([H_])
+            if d in MUTABLE_CTORS:
+                return frozenset([('U', f'{MUTABLE_CTORS[d]} `{pf.nsrc(e)[:60]}`')])
+            if d in ('struct.unpack', 'struct.unpack_from', 'len', 'sum', 'min', 'max', 'abs', 'round', 'repr', 'hash', 'id'):
+                return frozenset([H_])
+            f = e.func
+            if isinstance(f, ast.Attribute):
+                if f.attr == 'copy' and not e.args:
+                    return self.kind(f.value, env, fz)
+                if f.attr == '_convert_from_encoding':
+                    return frozenset([Q_])   # delegated decode: the nested type's own duty (R2 checks that the flag is forwarded)
+                if isinstance(f.value, ast.Name) and f.value.id == self.stream and f.attr in W.READ_KINDS:
+                    return frozenset([H_])
+                if isinstance(f.value, ast.Name) and f.value.id == self.stream and f.attr == 'read_bytes':
+                    return frozenset([H_])
+                if f.attr in HASHABLE_METHODS:
+                    return frozenset([H_])
+                if f.attr in MUTABLE_METHODS:
+                    return frozenset([('U', f'{MUTABLE_METHODS[f.attr]} `{pf.nsrc(e)[:60]}`')])
+            s = self.summary(e, fz, env)
+            if s is not None:
+                return s
+        return frozenset([Q_])
+
+    def summary(self, call: ast.Call, fz: str, env: Dict[str, frozenset]) -> Optional[frozenset]:
+        """kinds a same-module helper (method of the class / of the stream class, module-level function) may return, given what is known about the flag"""
+        if self.depth >= 2:
+            return None
+        f = call.func
+        target: Optional[pf.FuncDef] = None
+        owner: Optional[str] = None
+        skip = 0
+        if isinstance(f, ast.Attribute) and isinstance(f.value, ast.Name):
+            ps = W.param_names(self.fn)
+            if self.cname and ps and f.value.id == ps[0]:
+                hit = _mro_method(self.m, self.cname, f.attr)
+                if hit is not None:
+                    owner, target = hit
+                    skip = 0 if 'staticmethod' in pf.decorator_names(target) else 1
+            elif f.value.id == self.stream and self.stream is not None:
+                c = W.stream_class(self.m, 'r')
+                if c is not None and f.attr in W.methods(c):
+                    owner, target, skip = c.name, W.methods(c)[f.attr], 1
+                    mod = pf.load(W.STREAM_FILE)
+                    return _FreezeWalk(mod, owner, target, None, None, self.depth + 1).result(fz)
+            else:
+                hit = _mro_method(self.m, f.value.id, f.attr)
+                if hit is not None:
+                    owner, target = hit
+                    skip = 0 if 'staticmethod' in pf.decorator_names(target) else 1
+                    if skip:
+                        return None   # Cls.method(obj, ...) on an instance method: not a shape worth modelling
+        elif isinstance(f, ast.Name):
+            for st in self.m.tree.body:
+                if isinstance(st, ast.FunctionDef) and st.name == f.id:
+                    target = st
+        if target is None:
+            return None
+        if any(d not in ('staticmethod', 'typecheck', 'typecheck_method') for d in pf.decorator_names(target)) or target.args.vararg or target.args.kwarg:
+            return None
+        if any(isinstance(n, (ast.Yield, ast.YieldFrom)) for n in pf.walk_shallow(target)):
+            return None
+        params = W.param_names(target)[skip:]
+        cflag = None
+        init: Dict[str, frozenset] = {}
+        if any(isinstance(a, ast.Starred) for a in call.args) or any(k.arg is None for k in call.keywords):
+            return None
+        for prm, a in list(zip(params, call.args)) + [(k.arg, k.value) for k in call.keywords if k.arg in params]:
+            if self.flag is not None and isinstance(a, ast.Name) and a.id == self.flag:
+                cflag = prm
+            else:
+                init[prm] = self.kind(a, env, fz)
+        sub = _FreezeWalk(self.m, owner, target, cflag, None, self.depth + 1)
+        return sub.result(fz if cflag is not None else '?', init)
+
+    def result(self, fz: str, init: Optional[Dict[str, frozenset]] = None) -> frozenset:
+        """join of the kinds of every return reachable when the function is entered with flag knowledge fz and argument kinds `init`
+        (falling off the end returns None = H)"""
+        self.run(fz, init)
+        out: frozenset = frozenset()
+        for _, ks, _ in self.returns:
+            out |= ks
+        return out or frozenset([H_])
+
+    # ---- statements --------------------------------------------------------------------
+    @staticmethod
+    def merge(states: List[tuple]) -> List[tuple]:
+        by: Dict[str, Dict[str, frozenset]] = {}
+        for fz, env in states:
+            if fz not in by:
+                by[fz] = dict(env)
+            else:
+                cur = by[fz]
+                for k in set(cur) | set(env):
+                    cur[k] = cur.get(k, frozenset([Q_])) | env.get(k, frozenset([Q_]))
+        return [(fz, env) for fz, env in by.items()]
+
+    def run(self, fz: str = '?', init: Optional[Dict[str, frozenset]] = None) -> None:
+        if self.flag is not None:
+            for n in pf.walk_shallow(self.fn):
+                if isinstance(n, ast.Name) and n.id == self.flag and isinstance(n.ctx, (ast.Store, ast.Del)):
+                    self.fail(n, f'the freeze flag `{self.flag}` is rebound')
+        self.returns = []
+        self.walk(W.body_wo_doc(self.fn), [(fz, dict(init or {}))])
+
+    def bind(self, t: ast.AST, ks: frozenset, env: Dict[str, frozenset]) -> None:
+        if isinstance(t, ast.Name):
+            env[t.id] = ks
+        elif isinstance(t, (ast.Tuple, ast.List)):
+            for x in t.elts:
+                self.bind(x.value if isinstance(x, ast.Starred) else x, frozenset([Q_]), env)
+
+    def walk(self, stmts: Sequence[ast.stmt], states: List[tuple]) -> List[tuple]:
+        for st in stmts:
+            if not states:
+                break
+            states = self.step(st, states)
+        return states
+
+    def step(self, st: ast.stmt, states: List[tuple]) -> List[tuple]:
+        if isinstance(st, (ast.Return, ast.Assign, ast.AnnAssign)) and st.value is not None and self.flag is not None and W.mentions(st.value, self.flag):
+            # an expression that consults the flag (conditional expression, helper that receives it): decide it per valuation of the flag
+            states = [s2 for fz, env in states for s2 in ([('T', env), ('F', dict(env))] if fz == '?' else [(fz, env)])]
+        if isinstance(st, ast.Return):
+            for fz, env in states:
+                self.returns.append((fz, self.kind(st.value, env, fz), st))
+            return []
+        if isinstance(st, ast.Raise):
+            return []
+        if isinstance(st, (ast.Break, ast.Continue)):
+            if not self.loop_exits:
+                self.fail(st, 'break/continue outside a loop')
+            self.loop_exits[-1] += states
+            return []
+        if isinstance(st, ast.Assign):
+            out = []
+            for fz, env in states:
+                env = dict(env)
+                ks = self.kind(st.value, env, fz)
+                for t in st.targets:
+                    self.bind(t, ks, env)
+                out.append((fz, env))
+            return out
+        if isinstance(st, ast.AnnAssign):
+            if st.value is None:
+                return states
+            out = []
+            for fz, env in states:
+                env = dict(env)
+                self.bind(st.target, self.kind(st.value, env, fz), env)
+                out.append((fz, env))
+            return out
+        if isinstance(st, ast.If):
+            out = []
+            for fz, env in states:
+                th, el = self.split(st.test, fz)
+                if th is not None:
+                    out += self.walk(st.body, [(th, dict(env))])
+                if el is not None:
+                    out += self.walk(st.orelse, [(el, dict(env))])
+            return self.merge(out)
+        if isinstance(st, (ast.For, ast.AsyncFor, ast.While)):
+            cur = states
+            exits: List[tuple] = []
+            for _ in range(4):
+                self.loop_exits.append([])
+                entry = []
+                for fz, env in cur:
+                    env = dict(env)
+                    if not isinstance(st, ast.While):
+                        self.bind(st.target, frozenset([Q_]), env)
+                    entry.append((fz, env))
+                body_out = self.walk(st.body, entry)
+                exits = self.loop_exits.pop()
+                nxt = self.merge(cur + body_out)
+                if sorted((fz, sorted((k, sorted(v)) for k, v in env.items())) for fz, env in nxt) == sorted((fz, sorted((k, sorted(v)) for k, v in env.items())) for fz, env in cur):
+                    break
+                cur = nxt
+            after = self.merge(cur + exits)
+            return self.merge(self.walk(st.orelse, after) + (exits if st.orelse else [])) if st.orelse else after
+        if isinstance(st, (ast.With, ast.AsyncWith)):
+            out = []
+            for fz, env in states:
+                env = dict(env)
+                for it in st.items:
+                    if it.optional_vars is not None:
+                        self.bind(it.optional_vars, frozenset([Q_]), env)
+                out.append((fz, env))
+            return self.walk(st.body, out)
+        if isinstance(st, ast.Try):
+            body_out = self.walk(st.body, states)
+            mid = self.merge(states + body_out)
+            outs = self.walk(st.orelse, body_out) if st.orelse else body_out
+            for h in st.handlers:
+                hs = []
+                for fz, env in mid:
+                    env = dict(env)
+                    if h.name:
+                        env[h.name] = frozenset([Q_])
+                    hs.append((fz, env))
+                outs = outs + self.walk(h.body, hs)
+            outs = self.merge(outs)
+            return self.walk(st.finalbody, outs) if st.finalbody else outs
+        if isinstance(st, (ast.Expr, ast.Pass, ast.Assert, ast.Delete, ast.Global, ast.Nonlocal, ast.Import, ast.ImportFrom, ast.FunctionDef, ast.AsyncFunctionDef, ast.ClassDef, ast.AugAssign)):
+            # `x += [...]` / x.append(...) keep the kind of x; nested definitions are not part of this function's control flow
+            return states
+        self.fail(st, f'unsupported statement {type(st).__name__}')
+        return states
+
+
+def _mro_method(m: pf.Module, cn: str, meth: str, seen: tuple = ()) -> Optional[Tuple[str, pf.FuncDef]]:
+    top = {c.name: c for c in m.tree.body if isinstance(c, ast.ClassDef)}
+    c = top.get(cn)
+    if c is None or cn in seen:
+        return None
+    ms = W.methods(c)
+    if meth in ms:
+        return cn, ms[meth]
+    for b in c.bases:
+        d = pf.dotted(b)
+        if d in top:
+            r = _mro_method(m, d, meth, seen + (cn,))
+            if r is not None:
+                return r
+    return None
+
+
+def _r10(ctx: Ctx, m: pf.Module, classes: Dict[str, ast.ClassDef]):
+    base = W.methods(m.cls('HailType'))
+    ctx.need(FROM in base and len(W.param_names(base[FROM])) == 3, f'anchor vanished: HailType.{FROM}(self, byte_reader, _should_freeze)')
+    flag_name = W.param_names(base[FROM])[2]
+    n = 0
+    for cname, c in classes.items():
+        ms = W.methods(c)
+        if FROM not in ms or W._only_raises(ms[FROM]):
+            continue
+        fn = ms[FROM]
+        ps = W.param_names(fn)
+        if fn.args.vararg is not None or len(ps) < 2:
+            continue
+        flag = ps[2] if len(ps) > 2 else None
+        fw = _FreezeWalk(m, cname, fn, flag, ps[1])
+        fw.run('?')
+        produces = sorted({k[1] for _, ks, _ in fw.returns for k in ks if k[0] == 'U'})
+        if not fw.decisions and not produces:
+            continue   # scalars, value classes, tuples / Structs, pure delegation: nothing to freeze at this level
+        n += 1
+        cons = f'{F}::{cname}.{FROM}::freeze duty'
+        if flag is None:
+            ctx.bad('R10', cons, f'{cname}.{FROM} returns a mutable {produces[0] if produces else "container"} and has no `{flag_name}` parameter: tset / tdict cannot ask for a hashable value', m.path, fn.lineno)
+            continue
+        bad: List[str] = []
+        und: List[str] = []
+        good = 0
+        line = fn.lineno
+        for fz, ks, rnode in fw.returns:
+            if fz == 'F':
+                continue
+            us = sorted(k[1] for k in ks if k[0] == 'U')
+            when = f'{flag} = True' if fz == 'T' else f'{flag} unconstrained (no test of the flag lies on the way)'
+            if us:
+                line = rnode.lineno
+                bad.append(f'`{pf.nsrc(rnode)[:90]}` (line {rnode.lineno}) is reached with {when} and returns a mutable {us[0]}')
+            elif any(k[0] == '?' for k in ks):
+                und.append(f'`{pf.nsrc(rnode)[:90]}` (line {rnode.lineno}), reached with {when}')
+            else:
+                good += 1
+        if bad:
+            ctx.bad('R10', cons, '; '.join(bad) + f': tset and tdict decode their elements / keys with {flag}=True because they hash them, so a {cname} value in such a position '
+                    f'(e.g. set<{cname[1:] if cname.startswith("t") else cname}<...>> or a dict keyed by one) comes back unhashable and set(...) / d[key] = ... raises TypeError: unhashable type', m.path, line,
+                    {'returns': [pf.nsrc(r)[:80] for _, _, r in fw.returns]})
+            continue
+        ctx.need(not und, f'{F}::{cname}.{FROM}: cannot decide whether the value returned by {und[0] if und else ""} is frozen (expression outside the table of constructors)')
+        ctx.need(good >= 1, f'{F}::{cname}.{FROM}: no return is reachable with {flag} = True')
+        ctx.ok('R10', cons, {'frozen_returns': good, 'mutable_kinds_when_not_asked': produces})
+    ctx.need(n >= 3, f'expected the list / set / dict decoders (tarray, tset, tdict) to carry a freeze duty, found {n}')
+
+
 def run(ctx: Ctx) -> None:
     ctx.level = 'other'
     ctx.explanation = ('Wire programs of _convert_to_encoding/_convert_from_encoding of every HailType subclass are extracted from the AST and compared; the engine layout per type is '
@@ -1681,6 +2298,8 @@ def run(ctx: Ctx) -> None:
     ctx.rule('R8', 'strings are utf-8 on both sides and the int32 prefix counts the encoded bytes', 2)
     ctx.rule('R9', 'purity: no binary converter reads back state that outlives the call unless it is a memo keyed by every input of the remembered value '
                    '(decoded bytes and type parameters such as self.reference_genome)', 30)
+    ctx.rule('R10', 'freeze duty: a decoder that builds a list / set / dict returns a frozen (hashable) value on every path on which _should_freeze may be true '
+                    '(tset / tdict decode elements and keys with the flag set because they hash them)', 3)
     ctx.assume('values are well-typed (e.g. the rank of an ndarray value equals the ndim of its type; struct values have every field)')
     ctx.assume('frozen EType layouts: EArray/EUnsortedSet/EDictAsUnsortedArrayOfPairs = int32 n, ceil(n/8) missing bytes iff the element type is not required, present elements; '
                'EBaseStruct = one missing bit per non-required field then present fields; EBinary = int32 n + n bytes; ENDArrayColumnMajor = int64 per dimension + all elements')
@@ -1691,6 +2310,7 @@ def run(ctx: Ctx) -> None:
     ctx.unit('files', 12)
     ctx.unit('classes', len(classes))
     _r9(ctx, m, classes)   # first: an established history dependence is reported even if a later, shape-dependent rule declines
+    _r10(ctx, m, classes)  # likewise: a skipped freeze duty is not about bytes and is decided without the wire programs
     _r1(ctx)
     canon = _python_side(ctx, m, classes)
     r2_failed = {i['construct'].split('::')[1] for i in ctx.instances if i['rule'] == 'R2' and not i['holds']}
